@@ -12,10 +12,15 @@ static WFrame   cl_resp[W_MAX_TX]; static int cl_nresp;
 static uint64_t cl_trace;                    /* running hash over everything the server sent (C05 differential oracle) */
 static long     cl_frames;
 
+/* a client that abandons its transfer: with cl_budget >= 0 only that many further requests are sent; the next one is
+ * suppressed, cl_stopped is set and the dialogue function unwinds as if the server had aborted */
+static int cl_budget = -1, cl_stopped;
 static void (*cl_hook)(int i);               /* called before the i-th request of the transfer (interleaving with another server) */
 static int  cl_hook_i;
 static void cl_send(int srv, const uint8_t *req)
 {
+    if (cl_budget == 0) { cl_stopped = 1; cl_nresp = 1; memset(&cl_resp[0], 0, sizeof cl_resp[0]); cl_resp[0].d[0] = 0x80; return; }
+    if (cl_budget > 0) cl_budget--;
     if (cl_hook) cl_hook(cl_hook_i++);
     int first = OBS.ntx;
     sdo_request(srv, req);
